@@ -61,7 +61,7 @@ def spread_width_v(self, cycle):
     return rp.in_profile.width * rp.draught ** (-0.4) * float(rp.velocity) ** (-0.15)
 
 
-def make_sequence(n):
+def make_sequence(n, same_labels=False):
     from pyroll.core import Roll, RollPass, ThreeRollPass, Transport, RoundGroove, CircularOvalGroove, PassSequence
     if n in ('mixed', 'three'):
         # 'mixed': two-high roughing stands followed by a three-roll finishing stand; 'three': a pure three-roll block
@@ -80,7 +80,8 @@ def make_sequence(n):
     for i in range(n):
         kind, kw = specs[i]
         g = CircularOvalGroove(**kw) if kind == 'oval' else RoundGroove(**kw)
-        units.append(RollPass(label=f"P{i}", roll=Roll(groove=g, nominal_radius=160e-3), gap=2e-3))
+        # (stands are usually named after their groove: "Oval", "Round", "Oval" - labels need not be unique)
+        units.append(RollPass(label=(kind.capitalize() if same_labels else f"P{i}"), roll=Roll(groove=g, nominal_radius=160e-3), gap=2e-3))
         if i < n - 1:
             units.append(Transport(label=f"T{i}", duration=1))
     return PassSequence(units)
@@ -123,7 +124,7 @@ def real_runs(chk, rng):
             int_round[0] += 1
             if int_round[0] % 3 == 1:
                 speeds = [3, 1]
-            seq = make_sequence(n)
+            seq = make_sequence(n, same_labels=(int_round[0] % 3 == 2)) if isinstance(n, int) else make_sequence(n)
             # every incoming profile: also one that already carries a velocity (given by the caller, or because it is the profile returned
             # by a separately solved upstream line) which has nothing to do with the speeds of this calculation
             carried = {} if int_round[0] % 2 else {'velocity': rng.choice([0.3, 5.0, 11])}
@@ -151,12 +152,16 @@ def real_runs(chk, rng):
                 ctx.append(RollPass.OutProfile.width(spread_width if spread == 'draught' else spread_width_v))
             label = f"{n} passes{' with ' + spread + '-dependent spread model' if spread else ''}{', incoming profile carries velocity ' + str(carried['velocity']) if carried else ''}"
             try:
-                for step, (m, speed) in enumerate([(mode, speeds[0]), (mode, speeds[1]), ('forward' if mode == 'backward' else 'backward', speeds[0])]):
+                ip_b = Profile.round(diameter=28.5e-3, temperature=1473.15, material=["C45", "steel"], length=1, **carried)
+                for step, (m, speed, *_other) in enumerate([(mode, speeds[0]), (mode, speeds[1]), ('forward' if mode == 'backward' else 'backward', speeds[0]),
+                                                   # the same sequence recalculated for ANOTHER incoming profile at the same speed
+                                                   ('forward' if mode == 'backward' else 'backward', speeds[0], ip_b)]):
+                    ip_now = ip_b if step == 3 else ip
                     try:
                         if m == 'backward':
-                            seq.solve_velocities_backward(ip, final_speed=speed, final_cross_section_area=seq.roll_passes[-1].usable_cross_section.area)
+                            seq.solve_velocities_backward(ip_now, final_speed=speed, final_cross_section_area=seq.roll_passes[-1].usable_cross_section.area)
                         else:
-                            seq.solve_velocities_forward(ip, initial_speed=speed)
+                            seq.solve_velocities_forward(ip_now, initial_speed=speed)
                     except Exception as e:      # the physical models did not solve: nothing to say about fluxes
                         chk.notes.append(f"{label} {m} call {step + 1}: solve failed ({type(e).__name__})")
                         break
